@@ -56,6 +56,11 @@ func init() {
 	same := func(m []bool) []bool { return m }
 	add("GetBytes()", 0, func(b *utils.BitList) { b.GetBytes() }, same)
 	add("IterateBytes()", 0, func(b *utils.BitList) {
+		// the producer runs in its own goroutine, where a panic cannot be recovered: make sure
+		// first (in this goroutine) that every word it is going to read exists
+		if n := b.Len(); n > 0 {
+			b.GetBit(n - 1)
+		}
 		for range b.IterateBytes() {
 		}
 	}, same)
